@@ -136,7 +136,39 @@ def spelling_items():
                 yield {"hk": hk, "days": "mon - sun", "att": "shift-late", "z": z, "L": 60, "start": STARTS[0], "alap": alap, "lv": "none"}
 
 
+def boundleave_items():
+    """a dependency bound that lies INSIDE the first slot of a day off (the task enters that slot 'partly used'): every kind of
+    time off x resolution x own / default hours"""
+    for kind in ("rleave", "rvac", "booking", "pvac", "gleave"):
+        for L in (60, 30):
+            for own in (False, True):
+                for eff_a in (450, 440):   # a ends 16:30 / 16:20; + 17 h gap = 09:30 / 09:20 next morning
+                    yield {"kind": "bl", "off": kind, "L": L, "own": own, "ea": eff_a}
+
+
+def boundleave_spec(it):
+    r1 = {"id": "r1"}
+    if it["own"]:
+        r1["hours"] = [("mon - fri", ["9:00 - 17:00"])]
+    spec = {"start": "2025-01-06", "dur": "2w", "res_min": it["L"] if it["L"] != 60 else None, "resources": [{"id": "r0"}, r1],
+            "tasks": [{"id": "a", "effort": it["ea"], "alloc": ["r0"]}, {"id": "b", "effort": 120, "alloc": ["r1"], "deps": [{"ref": "a", "gap": "17h"}]}]}
+    k = it["off"]
+    if k == "rleave":
+        r1["leaves"] = [{"k": "leaves", "type": "annual", "a": "2025-01-07"}]
+    elif k == "rvac":
+        r1["leaves"] = [{"k": "vacation", "a": "2025-01-07"}]
+    elif k == "booking":
+        r1["leaves"] = [{"k": "booking", "a": "2025-01-07-09:00", "b": "+8h"}]
+    elif k == "pvac":
+        spec["vacations"] = [("2025-01-07", None)]
+    else:
+        spec["gleaves"] = [("holiday", "2025-01-07", None)]
+    return spec
+
+
 def to_spec(it):
+    if it.get("kind") == "bl":
+        return boundleave_spec(it)
     L, start = it["L"], it["start"]
     spec = {"start": start, "dur": "2w", "res_min": L if L != 60 else None, "alap": it["alap"]}
     hours = [(it["days"], HOURS[it["hk"]])] if it["hk"] else None
@@ -176,7 +208,7 @@ def evaluate(item):
         return wide.eval_c02(item)
     spec = to_spec(item)
     obs = common.run_spec(spec)
-    if obs.get("error") and item["att"] == "shift-late" and obs["error"][0] == "parse" and obs["error"][1] == "builtins.ValueError":
+    if obs.get("error") and item.get("att") == "shift-late" and obs["error"][0] == "parse" and obs["error"][1] == "builtins.ValueError":
         # refusing a reference to a shift that is not declared yet is fine; accepting it and working other hours is not
         return common.errored(item, obs, skip=True)
     if obs.get("error"):
@@ -185,7 +217,7 @@ def evaluate(item):
     cal = RefCalendar(spec)
     v, n = oracles.c02_calendar(spec, obs, 0, cal)
     r["v"] = common.dedup(v)
-    r["nt"] = bool(item["z"] or item["lv"] != "none" or (item["hk"] in ("night", "eve", "mid")))
+    r["nt"] = True if item.get("kind") == "bl" else bool(item["z"] or item["lv"] != "none" or (item["hk"] in ("night", "eve", "mid")))
     r["x"] = {"booked_slots_checked": n}
     return r
 
@@ -234,6 +266,7 @@ def run(ctx):
     st = Stats()
     explore(ctx, universe(ctx.tier), "mc.props.c02:evaluate", st, payload=payload, sample_of=sample, trait=trait, timeout=120)
     explore(ctx, spelling_items(), "mc.props.c02:evaluate", st, payload=payload, sample_of=sample, trait=trait, timeout=120)
+    explore(ctx, boundleave_items(), "mc.props.c02:evaluate", st, payload=payload, sample_of=sample, trait=trait, timeout=120)
     from mc.props import wide
     wide.sweep(ctx, st, "C02")
     common.vacuity_guard(ctx, st)
